@@ -148,6 +148,7 @@ pub fn run(ctx: &mut Ctx) {
     match ctx.sub.as_str() {
         "strips" => return run_strips(ctx),
         "parts" => return run_parts(ctx),
+        "big" => return run_big(ctx),
         "miri_h" | "miri_v" => return run_miri(ctx),
         _ => {}
     }
@@ -249,6 +250,45 @@ fn run_strips(ctx: &mut Ctx) {
             } else {
                 with_alpha_px!(t.c.pt, P => exec::<P>(t, &mut pools, stats, viols))
             }
+            stats.nontrivial(&describe(t));
+        },
+    );
+}
+
+/// large frames: destinations of 4..20 MB whose extents are not multiples of any band count (code that only goes
+/// parallel above a size threshold, band offsets with a remainder)
+fn run_big(ctx: &mut Ctx) {
+    let total = ctx.n.max(1);
+    let seed = ctx.seed;
+    let mut pools = Pools::new();
+    ctx.drive(
+        total,
+        |_, idx| {
+            let mut rng = Rng::for_case(seed, "C08big", idx);
+            let pt = [fr::PixelType::U8x4, fr::PixelType::U8, fr::PixelType::U16x3, fr::PixelType::F32x4, fr::PixelType::U8x2, fr::PixelType::I32, fr::PixelType::U16x2][(idx % 7) as usize];
+            let px = match pt { fr::PixelType::U8 => 1u32, fr::PixelType::U8x2 => 2, fr::PixelType::U8x4 | fr::PixelType::I32 | fr::PixelType::U16x2 => 4, fr::PixelType::U16x3 => 6, _ => 16 };
+            // destination of 4.2 .. 9 MB, prime-ish extents
+            let target = (4_400_000 + rng.below(4_600_000)) / px as u64;
+            let dw = *rng.pick(&[541u32, 1031, 1543, 2053, 2311, 769]);
+            let dh = ((target / dw as u64) as u32) | 1;
+            let (dw, dh) = if rng.chance(1, 2) { (dw, dh) } else { (dh, dw) };
+            let alg = match (idx / 7) % 4 {
+                0 => Alg::Nearest,
+                1 => Alg::Conv(Filt::Bilinear),
+                2 => Alg::Conv(Filt::Lanczos3),
+                _ => Alg::Super(Filt::Box, 2),
+            };
+            // a source of a few hundred pixels per side (up-scaling keeps the cost in the destination), or down-scaling by ~1.5
+            let (sw, sh) = if rng.chance(2, 3) { (rng.range(37, 400) as u32, rng.range(37, 400) as u32) } else { (dw + dw / 2 + 1, dh + dh / 2 + 3) };
+            let crop = if rng.chance(1, 2) { Crop::None } else { Crop::Box([3.0, 5.0, sw as f64 - 7.25, sh as f64 - 9.5]) };
+            let c = RCase { pt, sw, sh, dw, dh, crop, alg, use_alpha: rng.chance(1, 2), content: Content { kind: 0, seed: rng.next(), a: 0.0, b: 1.0 }, alpha: if pt_has_alpha(pt) { Some(gen_alpha_pat(&mut rng)) } else { None } };
+            Some(TCase { c, ext: *rng.pick(&ALL_EXT), op: 0, pools: vec![2, 3, 7], jitter: 0 })
+        },
+        describe,
+        |t, stats, viols| {
+            stats.count("big_frame_cases", 1);
+            stats.max("big_frame_dst_bytes", t.c.dw as f64 * t.c.dh as f64 * match t.c.pt { fr::PixelType::U8 => 1.0, fr::PixelType::U8x2 => 2.0, fr::PixelType::U16x3 => 6.0, fr::PixelType::F32x4 => 16.0, _ => 4.0 });
+            with_px!(t.c.pt, P => exec::<P>(t, &mut pools, stats, viols));
             stats.nontrivial(&describe(t));
         },
     );
